@@ -4,6 +4,12 @@ import PwVerif.Lemmas.EarlyRemote2
 import PwVerif.Lemmas.EarlyRemote3
 import PwVerif.Lemmas.EarlyRemote4
 import PwVerif.Lemmas.EarlyRemote5
+import PwVerif.Lemmas.EarlyRemote6
+import PwVerif.Lemmas.EarlyRemote7
+import PwVerif.Lemmas.EarlyRemote8
+import PwVerif.Lemmas.EarlyRemote9
+import PwVerif.Lemmas.EarlyRemote10
+import PwVerif.Lemmas.EarlyRemote11
 /-!
 (written by `tools/gen_loopk.py` from one template for the three persistent kinds)
 
@@ -22,19 +28,31 @@ open PwVerif.Py PwVerif.Gen
 
 theorem premote_early (env : Env) (he : Returns env) (hc : C05.Returns env) (a : Async) (ha : premoteCov a) (n K : Nat) (hK : K < premoteP) :
     ∃ F, StreamShape n (execBlock env F { inputs := List.replicate n .item ++ [.release], left := some K, async := a } premoteRun) := by
-  have hlt : K % 6 < 6 := Nat.mod_lt _ (by decide)
-  by_cases h0 : K % 6 = 0
+  have hlt : K % 12 < 12 := Nat.mod_lt _ (by decide)
+  by_cases h0 : K % 12 = 0
   · exact premote_early_0 env he hc a ha n K hK h0
-  by_cases h1 : K % 6 = 1
+  by_cases h1 : K % 12 = 1
   · exact premote_early_1 env he hc a ha n K hK h1
-  by_cases h2 : K % 6 = 2
+  by_cases h2 : K % 12 = 2
   · exact premote_early_2 env he hc a ha n K hK h2
-  by_cases h3 : K % 6 = 3
+  by_cases h3 : K % 12 = 3
   · exact premote_early_3 env he hc a ha n K hK h3
-  by_cases h4 : K % 6 = 4
+  by_cases h4 : K % 12 = 4
   · exact premote_early_4 env he hc a ha n K hK h4
-  by_cases h5 : K % 6 = 5
+  by_cases h5 : K % 12 = 5
   · exact premote_early_5 env he hc a ha n K hK h5
+  by_cases h6 : K % 12 = 6
+  · exact premote_early_6 env he hc a ha n K hK h6
+  by_cases h7 : K % 12 = 7
+  · exact premote_early_7 env he hc a ha n K hK h7
+  by_cases h8 : K % 12 = 8
+  · exact premote_early_8 env he hc a ha n K hK h8
+  by_cases h9 : K % 12 = 9
+  · exact premote_early_9 env he hc a ha n K hK h9
+  by_cases h10 : K % 12 = 10
+  · exact premote_early_10 env he hc a ha n K hK h10
+  by_cases h11 : K % 12 = 11
+  · exact premote_early_11 env he hc a ha n K hK h11
   omega
 
 set_option maxRecDepth 8000 in
